@@ -19,7 +19,7 @@ inductive GKind where | seq | choice | all
 inductive Leaf where
   | elem (id : Nat) (names : List QN)             -- declared name followed by its substitutes
   | any (id : Nat) (w : Wc)
-  deriving Repr, Inhabited
+  deriving Repr, Inhabited, DecidableEq
 
 def Leaf.id : Leaf → Nat | .elem i _ => i | .any i _ => i
 
